@@ -104,10 +104,19 @@ def locName : Loc → String
 
 def judgeInput (id : String) (fs : List String) (outs : List String) : String :=
   match fs, outs with
-  | [_cfg, _method, _target, _headers, _body, opn, sent], status :: code :: calls :: fields :: _ =>
+  | [_cfg, _method, _target, _headers, _body, opn, expect, sent], status :: code :: calls :: fields :: _ =>
     match Op.ofName opn with
     | none => badline id
     | some op =>
+      if expect != "ok" then
+        -- rejection cases: a duplicated / ill-typed / missing member or a wrong body length must not reach the
+        -- operation's backend method with a defaulted, merged or truncated input
+        let calls := decodeList calls
+        let kind := ((expect.splitOn ":").getD 1 "")
+        if calls.contains s!"backend:{op.backendMethod}:-:-:-" then
+          specfail id ("input-accepted:" ++ kind) s!"{opn} {expect} status={status}"
+        else agree id ("reject:" ++ kind ++ (if calls.isEmpty then "" else "-other-op"))
+      else
       let sent := (decodeList sent).map parseSent
       let fields := (decodeList fields).map (fun s => let (a, b) := splitFirst s '='; (normName a, b))
       let calls := decodeList calls
@@ -122,7 +131,7 @@ def judgeInput (id : String) (fs : List String) (outs : List String) : String :=
         let bindings := implInputs op
         let unsentBad := fields.filterMap (fun f =>
           if sent.any (fun s => normName s.snake == f.1) then none
-          else if f.2 == "None" then none
+          else if f.2 == "None" || f.2 == "[]" then none  -- an absent list member is the empty list
           else
             -- payload members (XML documents, streams) and the implicit content-length are not in `sent`
             match bindings.find? (fun b => bytesToString b.member == f.1) with
@@ -140,7 +149,9 @@ def judgeInput (id : String) (fs : List String) (outs : List String) : String :=
             let predicted := match src with | some s => some s.frag | none => if b.loc == .payload then none else some "None"
             match predicted, fields.find? (fun f => f.1 == m) with
             | none, _ => none
-            | some p, some f => if f.2 == p then none else some s!"{m}: table predicts {p}, arrived {f.2}"
+            | some p, some f =>
+              if f.2 == p || (p == "None" && f.2 == "[]") then none
+              else some s!"{m}: table predicts {p}, arrived {f.2}"
             | some _, none => some s!"{m}: no such field")
           if modelBad.isEmpty then agree id ("op:" ++ opn) else disagree id ("; ".intercalate modelBad) "fields"
   | _, _ => badline id
